@@ -178,6 +178,12 @@ def random_case(rnd):
         ci = rnd.randrange(len(callers))
         op = rnd.choice(callers[ci]["ops"])
         op["cancel"] = rnd.choice([EPS, DEFAULT_LATENCY / 2, tau / 4, tau / 2, tau - EPS, tau + EPS, 2 * tau])
+    cancel_callers = []
+    if rnd.random() < 0.08:
+        # a caller TASK is cancelled once at a seeded instant, swallows it (the library turns a cancellation into a
+        # failure or a retry) and goes on with its remaining operations
+        cancel_callers = [{"caller": rnd.randrange(ncall),
+                           "at": rnd.choice([EPS, DEFAULT_LATENCY / 2, tau / 4, tau / 2, tau + EPS, 2 * tau, 3 * tau])}]
     toggles = []
     if level == "inverter" and rnd.random() < 0.4:
         # the application switches keep-alive while requests are queued / in flight (Inverter.set_keep_alive)
@@ -185,7 +191,7 @@ def random_case(rnd):
                    for _ in range(rnd.randint(1, 2))]
     return {"transport": tr, "keep_alive": rnd.random() < 0.5, "timeout": tau, "retries": r, "count": count,
             "level": level, "callers": callers, "faults": faults, "toggles": toggles,
-            "same_contents": rnd.random() < 0.1,
+            "same_contents": rnd.random() < 0.1, "cancel_callers": cancel_callers,
             # the object has been used from another event loop before (a previous asyncio.run)
             "prior_loop": rnd.choice([False] * 11 + [True, "contended", "contended"])}
 
@@ -198,6 +204,8 @@ def simplify(case):
         out.append(dict(case, toggles=case["toggles"][1:]))
     if case.get("same_contents"):
         out.append(dict(case, same_contents=False))
+    if case.get("cancel_callers"):
+        out.append(dict(case, cancel_callers=[]))
     for ci, c in enumerate(case["callers"]):
         for oi, op in enumerate(c["ops"]):
             if op.get("cancel") is not None and not case.get("cancel_mode"):
@@ -240,13 +248,21 @@ def simulate(case):
     else:
         proto = C.make_protocol(tr, tau, r, case["keep_alive"])
 
+    async def nap(d):
+        try:
+            await asyncio.sleep(d)
+        except asyncio.CancelledError:
+            pass   # an application task that shrugs a cancellation off and goes on polling
+
     async def caller(ci, spec):
+        me = asyncio.current_task()
         if spec["start"]:
-            await asyncio.sleep(spec["start"])
+            await nap(spec["start"])
         for oi, op in enumerate(spec["ops"]):
             if op["think"]:
-                await asyncio.sleep(op["think"])
+                await nap(op["think"])
             label = f"c{ci}o{oi}"
+            seen = me.cancelling() if hasattr(me, "cancelling") else 0
 
             async def one(op=op, label=label):
                 if case["level"] == "inverter":
@@ -256,7 +272,7 @@ def simulate(case):
                 # the caller of this caller cancels it after a delay
                 t = asyncio.ensure_future(one())
                 t.set_name(label)
-                await asyncio.sleep(op["cancel"])
+                await nap(op["cancel"])
                 t.cancel()
                 try:
                     rec = await t
@@ -264,7 +280,12 @@ def simulate(case):
                     rec = {"label": label, "outcome": "cancelled", "t0": None, "t1": world.clock.now}
                 rec["cancelled"] = True
             else:
-                rec = await one()
+                try:
+                    rec = await one()
+                except asyncio.CancelledError:
+                    rec = {"label": label, "outcome": "cancelled", "t0": None, "t1": world.clock.now, "cancelled": True}
+            if hasattr(me, "cancelling") and me.cancelling() > seen:
+                rec["cancelled"] = True   # the caller TASK was cancelled during this operation (and carried on)
             rec["caller"] = ci
             rec["reg"] = op["reg"]
             rec["seq0"] = None
@@ -278,6 +299,14 @@ def simulate(case):
         tasks = [asyncio.ensure_future(caller(ci, spec)) for ci, spec in enumerate(case["callers"])]
         for i, t in enumerate(tasks):
             t.set_name(f"caller{i}")
+        for j, cc in enumerate(case.get("cancel_callers") or ()):
+            async def canceller(cc=cc):
+                await asyncio.sleep(cc["at"])
+                if not tasks[cc["caller"]].done():
+                    tasks[cc["caller"]].cancel()
+            t = asyncio.ensure_future(canceller())
+            t.set_name(f"canceller{j}")
+            tasks.append(t)
         if case["level"] == "inverter":
             for j, spec in enumerate(case.get("toggles") or ()):
                 t = asyncio.ensure_future(toggler(spec))
@@ -434,6 +463,7 @@ def run_case(case):
     probes = {"retry_requeued_behind_other_caller": requeued, "callers_overlapping": overlap_in_time,
               "requests": len(results), "fragments_composed": sum(1 for i in complete if txs[i]["f"]["k"] == "frag"),
               "keep_alive_switched_mid_run": len(case.get("toggles") or ()) if case["level"] == "inverter" else 0,
+              "caller_task_cancelled": len(case.get("cancel_callers") or ()),
               "caller_cancelled_seeded": sum(1 for c in case["callers"] for op in c["ops"] if op.get("cancel") is not None
                                               and not case.get("cancel_mode")),
               "caller_cancelled_queued": 1 if case.get("cancel_mode") == "queued" else 0,
